@@ -483,7 +483,7 @@ func (a *Allocation) flushOrInvalidateRange(offset, size int, outRange *core1_0.
 	if offset > allocationSize {
 		return false, errors.Errorf("offset %d is past the end of the allocation, which is size %d", offset, allocationSize)
 	}
-	if size > 0 && (offset+size) > allocationSize {
+	if size > 0 && size > allocationSize-offset {
 		return false, errors.Errorf("offset %d places the end of the block %d past the end of the allocation, which is size %d", offset, offset+size, allocationSize)
 	}
 
